@@ -99,6 +99,17 @@ def run_unit(unit, tier, seed, do_canary=True):
         ur.wall = time.time() - t0
         return ur
     ur.meta = meta
+    # restated predicates must be the same text as the originals modulo the fixed renaming
+    try:
+        from config import RESTATEMENTS
+        import restate
+        for (fa, na, fb, nb) in RESTATEMENTS.get(unit, []):
+            msg = restate.compare(os.path.join(VERIF, 'units', fa), na, os.path.join(VERIF, 'units', fb), nb)
+            ur.seeds.append({'restatement_check': '%s:%s == %s:%s modulo renaming' % (fa, na, fb, nb), 'identical': msg is None})
+            if msg:
+                ur.undecided.append('restatement check: ' + msg)
+    except ImportError:
+        pass
     main_path = os.path.join(BUILD, unit + '.rs')
     open(main_path, 'w').write(text)
     json.dump(meta, open(main_path + '.meta.json', 'w'), indent=1)
@@ -714,6 +725,7 @@ def check_property(prop, tier, seed):
             'unit_wall_s': {ur.unit: round(ur.wall, 2) for ur in unit_results},
             'vacuity_canaries': {ur.unit: '%d/%d failed as required' % (ur.canary_ok, ur.canary_total) for ur in unit_results},
             'changed_vs_baseline': {ur.unit: ur.changed for ur in unit_results if ur.changed},
+            'unit_notes': {ur.unit: ur.seeds for ur in unit_results if ur.seeds},
             'not_decided': cfg.get('not_decided', []),
             'termination_not_claimed_for': [f['key'] for f in functions_ev if f.get('no_termination_claim')],
             'known_findings_reported': known_hits,
